@@ -35,6 +35,8 @@ mod c19;
 /// models were found faithful (fma, division, trunc, comparisons). Not `cfg(kani)`:
 /// it is differential-tested natively against `f64::rem_euclid` by `check setup`.
 pub mod rem_model;
+/// Native witnesses for the findings listed in known_findings.json.
+pub mod witness;
 /// Exact integer model of `f64::rem_euclid` on short-significand lattices, any exponent gap.
 pub mod rem_lattice;
 /// Natively validated table of float operations for the Kani intrinsic-conformance harness.
